@@ -960,6 +960,14 @@ class SortValues(BaseSetIndexSortValues):
     }
     _filter_passthrough = True
 
+    @property
+    def npartitions(self):
+        if self.frame.npartitions == 1:
+            # a single partition is sorted in place (see ``_divisions`` and
+            # ``_lower``): a requested ``npartitions`` does not apply
+            return 1
+        return super().npartitions
+
     def _divisions(self):
         if self.frame.npartitions == 1:
             # Protect against triggering calculations when we only have one division
